@@ -159,6 +159,12 @@ def build_alphabet(lab, ents, root_of):
         add("expand:%d" % i, {"f": "expand", "search": sc})
         add("expand_extrapolated:%d" % i, {"f": "expand", "search": sc, "args": [True]})
         add("simple_typing:%d" % i, {"f": "simple_typing", "search": sc.replace("/**", "/*")})
+    # searches that raise SpilException by contract (untypable root before '**', two '**'): the same answer every time they are asked
+    for i, sc in enumerate(["zz/**", segs[0] + "/**/**", "zz/yy/**/" + segs[-1]]):
+        add("unfold_raising:%d" % i, {"f": "unfold", "search": sc}, group="unfold_raising:%d" % i)
+        add("unfold_raising_again:%d" % i, {"f": "unfold", "search": sc, "pre": [{"f": "unfold", "search": sc}]}, group="unfold_raising:%d" % i)
+        add("find_raising:%d" % i, {"f": "find", "finder": "list", "search": sc})
+        add("match_raising:%d" % i, {"f": "match", "sid": f1, "search": sc})
     # unfold_search: every flag combination, positional and keyword
     for i, s in enumerate(searches):
         for du in (False, True):
